@@ -272,6 +272,23 @@ def run(ctx):
         for k, v in forms.items():
             if v.to_list() != want or len(v) != len(ds) or v.to_string() != " ".join(want):
                 res.violation(f"DaughtersDict from {k} differs", case, impl=v.to_list(), clause="final states")
+        # every entry point that takes a final state takes every one of these forms (constructor of the mode, dictionary form
+        # of the mode): the same final state, multiplicities counted, non-positive counts dropped
+        import collections
+
+        raw_forms = {"list": list(perm), "tuple": tuple(perm), "string": sep.join(ds), "counts": dict(cd), "Counter": Counter(cd),
+                     "OrderedDict": collections.OrderedDict(cd), "DaughtersDict": DaughtersDict(perm)}
+        for k, raw in raw_forms.items():
+            for entry in ("DecayMode", "DecayMode.from_dict"):
+                try:
+                    dmx = DecayMode(0.25, raw) if entry == "DecayMode" else DecayMode.from_dict({"bf": 0.25, "fs": raw, "model": "PHSP"})
+                    got = [dmx.daughters.to_list(), len(dmx), dmx.to_dict().get("fs")]
+                except Exception as e:
+                    got = f"{type(e).__name__}: {e}"
+                if got != [want, len(ds), want]:
+                    res.violation(f"{entry} with the final state given as {k} does not hold that final state", dict(case, form=k, entry=entry, given=repr(raw)[:300]),
+                                  impl=got, model=[want, len(ds), want], clause="final states")
+        res.count("entry_point_forms", 2 * len(raw_forms))
         # the same final state reached step by step (the mapping interface of the class): built from a prefix, the rest added in place
         if len(ds) >= 2:
             k = rng.randint(0, len(perm) - 1)
